@@ -76,15 +76,15 @@ Proof.
 Qed.
 
 (* the pieces of the view *)
-Lemma wfb_tooltip : forall s, wfb (tooltip_span s) = true.
+Lemma wfb_tooltip : forall css s, wfb (tooltip_span css s) = true.
 Proof. reflexivity. Qed.
-Lemma wfb_summary : forall o name path v, wfb (summary_el o name path v) = true.
+Lemma wfb_summary : forall o css sc name path v, wfb (summary_el o css sc name path v) = true.
 Proof.
-  intros o name path v. unfold summary_el.
+  intros o css [[a|] [b|]] name path v; unfold summary_el;
   destruct name; destruct (o_key_tooltip o); destruct (o_summary_tooltip o); reflexivity.
 Qed.
 Lemma wfb_key_cell : forall o k p, forallb wfb (key_cell o k p) = true.
-Proof. intros o k p. unfold key_cell. destruct (o_key_tooltip o); reflexivity. Qed.
+Proof. intros o k p. unfold key_cell. destruct (o_key_color o) as [[a|] [b|]]; destruct (o_key_tooltip o); reflexivity. Qed.
 
 Lemma wfb_table : forall kids, forallb wfb kids = true -> wfb (El s_table [] [] kids) = true.
 Proof. intros kids H. cbn [wfb]. rewrite H. reflexivity. Qed.
@@ -97,9 +97,9 @@ Proof.
   - destruct (IH a H) as (k'' & Hin). exists k''. now right.
 Qed.
 
-Theorem tv_wfb : forall o v name path cl incl excl, wfb (tv o name path cl incl excl v) = true.
+Theorem tv_wfb : forall o v css sc name path cl incl excl, wfb (tv o css sc name path cl incl excl v) = true.
 Proof.
-  intros o. induction v as [lk tn cn raw rep fmt|sq tn cn fmt items IH] using pv_ind'; intros name path cl incl excl.
+  intros o. induction v as [lk tn cn raw rep fmt|sq tn cn fmt items IH] using pv_ind'; intros css sc name path cl incl excl.
   - cbn [tv]. destruct (needs_summary o name _).
     + cbn [wfb forallb]. rewrite wfb_summary.
       destruct (should_collapse o name path cl _); reflexivity.
@@ -142,7 +142,7 @@ Theorem tree_view_no_injection : forall o v,
 Proof.
   intros o v. exists (normalize [tree_view o v]). split; [apply render_parse, tree_view_names_ok|].
   intros n Hn.
-  destruct (wfb_vocab _ (tv_wfb o v (o_name o) (o_root_path o) (o_collapse o) (o_include o) (o_exclude o))) as (H1 & H2 & H3).
+  destruct (wfb_vocab _ (tv_wfb o v (o_css o) (o_summary_color o) (o_name o) (o_root_path o) (o_collapse o) (o_include o) (o_exclude o))) as (H1 & H2 & H3).
   fold (tree_view o v) in H1, H2, H3.
   repeat split; intros x Hx.
   - apply H1. assert (E := collect_normalize (fun tag _ _ => [tag]) [tree_view o v]).
@@ -203,16 +203,16 @@ Section Present.
   (* the hnode of child (k, c) inside its parent *)
   Definition child_node (label : bool) (path : list key) (cl' : option Z) (k : key) (c : pv) : hnode :=
     if label
-    then El s_tr [] [] [El s_td [] [] (key_cell o k (path ++ [k])); El s_td [] [] [tv o None (path ++ [k]) cl' None None c]]
-    else tv o (Some k) (path ++ [k]) cl' None None c.
+    then El s_tr [] [] [El s_td [] [] (key_cell o k (path ++ [k])); El s_td [] [] [tv o [] (None, None) None (path ++ [k]) cl' None None c]]
+    else tv o [] (None, None) (Some k) (path ++ [k]) cl' None None c.
 
   (* an included child's node is among the children of the complex-value element, so its texts are texts of the parent *)
-  Lemma child_texts : forall sq tn cn fmt items k c name path cl incl excl x,
+  Lemma child_texts : forall sq tn cn fmt items k c css sc name path cl incl excl x,
     assoc_key k items = Some c -> key_included incl excl k = true ->
     In x (texts_of (child_node (sq || o_label_keys o) path (option_map (fun n => (n - 1)%Z) cl) k c)) ->
-    In x (texts_of (tv o name path cl incl excl (PNode sq tn cn fmt items))).
+    In x (texts_of (tv o css sc name path cl incl excl (PNode sq tn cn fmt items))).
   Proof.
-    intros sq tn cn fmt items k c name path cl incl excl x Ha Hi Hx.
+    intros sq tn cn fmt items k c css sc name path cl incl excl x Ha Hi Hx.
     cbn [tv].
     set (label := sq || o_label_keys o) in *.
     set (cl' := option_map _ cl) in *.
@@ -222,8 +222,8 @@ Section Present.
     assert (Hr : assoc_key k rendered = Some (child_node label path cl' k c)).
     { subst rendered. unfold child_node.
       exact (assoc_key_map (fun kc => if label
-                 then El s_tr [] [] [El s_td [] [] (key_cell o (fst kc) (path ++ [fst kc])); El s_td [] [] [tv o None (path ++ [fst kc]) cl' None None (snd kc)]]
-                 else tv o (Some (fst kc)) (path ++ [fst kc]) cl' None None (snd kc)) k items c Ha). }
+                 then El s_tr [] [] [El s_td [] [] (key_cell o (fst kc) (path ++ [fst kc])); El s_td [] [] [tv o [] (None, None) None (path ++ [fst kc]) cl' None None (snd kc)]]
+                 else tv o [] (None, None) (Some (fst kc)) (path ++ [fst kc]) cl' None None (snd kc)) k items c Ha). }
     assert (Ho : In k order).
     { subst order. unfold key_included in Hi. apply andb_prop in Hi. destruct Hi as [Hi He].
       assert (H0 : In k (match incl with None => map fst items | Some l => filter (fun k0 => key_mem k0 (map fst items)) l end)).
@@ -241,7 +241,7 @@ Section Present.
   Qed.
 
   Lemma child_node_texts : forall (label : bool) path cl' k c x,
-    In x (texts_of (tv o (if label then @None key else Some k) (path ++ [k]) cl' None None c)) ->
+    In x (texts_of (tv o [] (None, None) (if label then @None key else Some k) (path ++ [k]) cl' None None c)) ->
     In x (texts_of (child_node label path cl' k c)).
   Proof.
     intros label path cl' k c x H. unfold child_node. destruct label; [|exact H].
@@ -250,35 +250,35 @@ Section Present.
   Qed.
 
   (* below the root no key is filtered: texts of a sub-value are texts of the value *)
-  Lemma sub_texts : forall v p w, sub_at v p w -> forall name path cl,
-    exists name' path' cl', forall x, In x (texts_of (tv o name' path' cl' None None w)) -> In x (texts_of (tv o name path cl None None v)).
+  Lemma sub_texts : forall v p w, sub_at v p w -> forall css sc name path cl,
+    exists css' sc' name' path' cl', forall x, In x (texts_of (tv o css' sc' name' path' cl' None None w)) -> In x (texts_of (tv o css sc name path cl None None v)).
   Proof.
-    induction 1 as [v|sq tn cn fmt items k c p w Ha Hs IH]; intros name path cl.
-    - exists name, path, cl. auto.
-    - destruct (IH (if sq || o_label_keys o then @None key else Some k) (path ++ [k]) (option_map (fun n => (n - 1)%Z) cl)) as (n' & p' & c' & Hin).
-      exists n', p', c'. intros x Hx.
+    induction 1 as [v|sq tn cn fmt items k c p w Ha Hs IH]; intros css sc name path cl.
+    - exists css, sc, name, path, cl. auto.
+    - destruct (IH [] (None, None) (if sq || o_label_keys o then @None key else Some k) (path ++ [k]) (option_map (fun n => (n - 1)%Z) cl)) as (s' & d' & n' & p' & c' & Hin).
+      exists s', d', n', p', c'. intros x Hx.
       eapply child_texts; [exact Ha|reflexivity|]. apply child_node_texts. apply Hin, Hx.
   Qed.
 
   Lemma sub_texts_root : forall v p w, sub_at v p w -> path_included o p = true ->
-    exists name' path' cl' incl' excl',
+    exists css' sc' name' path' cl' incl' excl',
       (p = [] -> incl' = o_include o /\ excl' = o_exclude o) /\
       (p <> [] -> incl' = None /\ excl' = None) /\
-      forall x, In x (texts_of (tv o name' path' cl' incl' excl' w)) -> In x (texts_of (tree_view o v)).
+      forall x, In x (texts_of (tv o css' sc' name' path' cl' incl' excl' w)) -> In x (texts_of (tree_view o v)).
   Proof.
     intros v p w Hs Hp. destruct Hs as [v|sq tn cn fmt items k c p w Ha Hs].
-    - exists (o_name o), (o_root_path o), (o_collapse o), (o_include o), (o_exclude o).
+    - exists (o_css o), (o_summary_color o), (o_name o), (o_root_path o), (o_collapse o), (o_include o), (o_exclude o).
       split; [auto|]. split; [intros H; now elim H|auto].
-    - destruct (sub_texts c p w Hs (if sq || o_label_keys o then @None key else Some k) (o_root_path o ++ [k])
-                  (option_map (fun n => (n - 1)%Z) (o_collapse o))) as (n' & p' & c' & Hin).
-      exists n', p', c', None, None. split; [discriminate|]. split; [auto|].
+    - destruct (sub_texts c p w Hs [] (None, None) (if sq || o_label_keys o then @None key else Some k) (o_root_path o ++ [k])
+                  (option_map (fun n => (n - 1)%Z) (o_collapse o))) as (s' & d' & n' & p' & c' & Hin).
+      exists s', d', n', p', c', None, None. split; [discriminate|]. split; [auto|].
       intros x Hx. unfold tree_view. eapply child_texts; [exact Ha|exact Hp|].
       apply child_node_texts. apply Hin, Hx.
   Qed.
 
   (* leaves *)
-  Lemma leaf_text_in : forall lk tn cn raw rep fmt name path cl incl excl,
-    In (leaf_text o lk raw rep) (texts_of (tv o name path cl incl excl (PLeaf lk tn cn raw rep fmt))).
+  Lemma leaf_text_in : forall lk tn cn raw rep fmt css sc name path cl incl excl,
+    In (leaf_text o lk raw rep) (texts_of (tv o css sc name path cl incl excl (PLeaf lk tn cn raw rep fmt))).
   Proof. intros. cbn [tv]. apply texts_wrap. rewrite texts_el. now left. Qed.
 
   Theorem all_leaves_present : forall v p lk tn cn raw rep fmt,
@@ -286,16 +286,16 @@ Section Present.
     In (leaf_text o lk raw rep) (texts_of (tree_view o v)).
   Proof.
     intros v p lk tn cn raw rep fmt Hs Hp.
-    destruct (sub_texts_root v p _ Hs Hp) as (n' & p' & c' & i' & e' & _ & _ & Hin).
+    destruct (sub_texts_root v p _ Hs Hp) as (s' & d' & n' & p' & c' & i' & e' & _ & _ & Hin).
     apply Hin. apply leaf_text_in.
   Qed.
 
   (* keys *)
-  Lemma key_text_in : forall sq tn cn fmt items k c name path cl incl excl t,
+  Lemma key_text_in : forall sq tn cn fmt items k c css sc name path cl incl excl t,
     assoc_key k items = Some c -> key_included incl excl k = true -> key_shown_text o sq k c = Some t ->
-    In t (texts_of (tv o name path cl incl excl (PNode sq tn cn fmt items))).
+    In t (texts_of (tv o css sc name path cl incl excl (PNode sq tn cn fmt items))).
   Proof.
-    intros sq tn cn fmt items k c name path cl incl excl t Ha Hi Ht.
+    intros sq tn cn fmt items k c css sc name path cl incl excl t Ha Hi Ht.
     eapply child_texts; [exact Ha|exact Hi|].
     unfold key_shown_text in Ht. unfold child_node.
     destruct (sq || o_label_keys o).
@@ -315,7 +315,7 @@ Section Present.
   Proof.
     intros v p sq tn cn fmt items k c t Hs Ha Hp Ht.
     assert (Hp' : path_included o p = true) by (destruct p; [reflexivity|exact Hp]).
-    destruct (sub_texts_root v p _ Hs Hp') as (n' & p' & c' & i' & e' & Hroot & Hdeep & Hin).
+    destruct (sub_texts_root v p _ Hs Hp') as (s' & d' & n' & p' & c' & i' & e' & Hroot & Hdeep & Hin).
     apply Hin. eapply key_text_in; eauto.
     destruct p as [|k0 p0].
     - destruct (Hroot eq_refl) as [-> ->]. exact Hp.
@@ -339,7 +339,7 @@ Definition ex_key : key := KStr s_k_i_closed.
 Definition ex_leaf : pv := PLeaf LStr s_str s_str s_k_i s_k_i s_k_i.
 Definition ex_list : pv := PNode true s_k s_k [] [(KInt 0, ex_leaf)].
 Definition ex_value : pv := PNode false s_k s_k [] [(ex_key, ex_list)].
-Definition ex_opts : opts := mkOpts None [] None true 80 true true false (Some [ex_key]) (Some []) (Some 1%Z) [].
+Definition ex_opts : opts := mkOpts None [] None true 80 true true false (Some [ex_key]) (Some []) (Some 1%Z) [] [s_k] (Some s_k, None) (None, Some s_k).
 Example ex_sub : sub_at ex_value [ex_key; KInt 0] ex_leaf.
 Proof. repeat (econstructor; try reflexivity). Qed.
 Example ex_included : path_included ex_opts [ex_key; KInt 0] = true.
